@@ -175,17 +175,73 @@ def holdsParties (n self : Nat) (excl : List Nat) (seed : Nat)
   && mis == (List.range' 1 n).filter (fun m => !(m == self) && excl.contains m)
   && rt == operating
 
-/-- `recv` observation: every message the implementation reports in a history/received list was
-    admitted, senders are distinct and in first-arrival order. `lists k` = (sender, seq) pairs. -/
-def holdsRecv (self sess : Nat) (g : Group) (seats : List Nat) (msgs : List Msg)
+def nodupB : List Nat → Bool
+  | [] => true
+  | a :: as => !as.contains a && nodupB as
+
+/-- `recv` observation: every message the implementation reports in a `receivedMessages[T]` list
+    is a delivered message of that type that passes the admission test (valid membership of the
+    claimed sender, operating, not self, own session), senders are distinct, and `CanTransition`
+    holds exactly when the list of the awaited type has one message per other operating member.
+    `lists k` = (sender, seq) pairs; `seq` = position of the delivery in the event list. -/
+def holdsRecv (self sess : Nat) (g : Group) (seats : List Nat) (evs : List Ev) (st : Nat) (can : Bool)
     (lists : List (List (Nat × Nat))) : Bool :=
-  (List.range lists.length).all fun k =>
+  ((List.range lists.length).all fun k =>
     let l := lists.getD k []
     l.all (fun (p : Nat × Nat) =>
-      match msgs.find? (fun m => m.seq == p.2) with
-      | some m => m.sender == p.1 && m.kind == k && admitted self sess g seats m
-      | none => false)
-    && (l.map (·.1)).eraseDups.length == l.length
-    && isStrictAsc (l.map (·.2))
+      match evs[p.2]? with
+      | some (.recv m) => m.sender == p.1 && m.kind == k && admitted self sess g seats m
+      | _ => false)
+    && nodupB (l.map (·.1)))
+  && (match kindOf st with
+      | some k => can == ((lists.getD k []).length + 1 == g.operating.length)
+      | none => can)
+
+/-! ## result publication (`Publish`: `resultSigningState`) -/
+
+/-- A message as `resultSigningState.Receive` sees it: `kind` as in `Msg` (only 5, the
+    `resultSignatureMessage`, is considered), `sigOp` = operator whose public key is embedded in the
+    signature message (must equal the network-authenticated key `op`). -/
+structure PMsg where
+  kind : Nat
+  sender : Nat
+  op : Nat
+  sess : Nat
+  sigOp : Nat
+  seq : Nat
+deriving Repr, DecidableEq
+
+def PMsg.toMsg (m : PMsg) : Msg := ⟨m.kind, m.sender, m.op, m.sess, m.seq⟩
+
+/-- admission test of `resultSigningState.Receive` (`signingMember.shouldAcceptMessage`,
+    `isValidKeyUsed`, session) -/
+def admittedPub (self sess : Nat) (g : Group) (seats : List Nat) (m : PMsg) : Bool :=
+  (m.kind == 5) && shouldAccept self g seats m.sender m.op && (m.sigOp == m.op) && (sess == m.sess)
+
+def receivePub (self sess : Nat) (g : Group) (seats : List Nat) (h : List PMsg) (m : PMsg) : List PMsg :=
+  if admittedPub self sess g seats m then h ++ [m] else h
+
+def runPub (self sess : Nat) (g : Group) (seats : List Nat) (ms : List PMsg) : List PMsg :=
+  ms.foldl (receivePub self sess g seats) []
+
+/-- `receivedMessages[*resultSignatureMessage]` -/
+def receivedPub (h : List PMsg) : List Msg := received (h.map PMsg.toMsg) 5
+
+/-- `resultSigningState.CanTransition` -/
+def canTransitionPub (g : Group) (h : List PMsg) : Bool :=
+  (receivedPub h).length + 1 == g.operating.length
+
+/-- group of a DKG result: the given members are disqualified -/
+def groupWithDQ (n : Nat) (dq : List Nat) : Group := dq.foldl Group.markDQ (Group.new n)
+
+/-- `pub` observation: only admitted signature messages, one per sender, CanTransition exact. -/
+def holdsPub (self sess : Nat) (g : Group) (seats : List Nat) (ms : List PMsg) (can : Bool)
+    (l : List (Nat × Nat)) : Bool :=
+  l.all (fun (p : Nat × Nat) =>
+    match ms[p.2]? with
+    | some m => m.sender == p.1 && admittedPub self sess g seats m
+    | none => false)
+  && nodupB (l.map (·.1))
+  && (can == (l.length + 1 == g.operating.length))
 
 end KeepVerif.C07
